@@ -501,7 +501,12 @@ fn overflow_grid(g: &mut Grid, tier: &str) {
         };
         let al = ta.max(8) as u128;
         let data_off = (8 + al - 1) / al * al;
-        let need: u128 = data_off + ((hdr + (ta as u128) - 1) / (ta as u128) * (ta as u128)) + (n as u128) * (ts as u128);
+        let mut need: u128 = data_off + ((hdr + (ta as u128) - 1) / (ta as u128) * (ta as u128)) + (n as u128) * (ts as u128);
+        if ctor.contains("iter") {
+            // an implementation may gather the items in scratch memory first: the first big request
+            // may then be for the elements alone
+            need = (n as u128) * (ts as u128);
+        }
         let outcome = if let Some(l) = stdout.lines().find(|l| l.starts_with("REFUSED")) {
             let sz: u128 = l.split("size=").nth(1).and_then(|s| s.split_whitespace().next()).and_then(|s| s.parse().ok()).unwrap_or(0);
             if sz < need {
@@ -513,6 +518,9 @@ fn overflow_grid(g: &mut Grid, tier: &str) {
             "refused+abort"
         } else if stdout.contains("PANIC") {
             "panic"
+        } else if stdout.contains("RETURNED len=2 ") && ctor.contains("iter") {
+            // the iterator lied about its length and really has two items: a handle with exactly those two is a correct answer
+            "returned-true-contents"
         } else if stdout.contains("RETURNED") {
             g.fail("overflow-returned", &case, format!("constructor returned for an impossible length: {}", stdout.trim()));
             "returned"
